@@ -335,11 +335,14 @@ func visitInstr(fr *frame, instr ssa.Instruction) continuation {
 	case *ssa.MakeSlice:
 		capv := fr.get(instr.Cap)
 		lenv := fr.get(instr.Len)
-		if _, ok := capv.(symInt); ok {
-			panic(unsupported("make([]T, symbolic)"))
+		if sl, ok := lenv.(symInt); ok {
+			lenv = fr.concretizeAny(sl, "make-len")
+			if sc, ok := capv.(symInt); ok && sc.t == sl.t {
+				capv = lenv
+			}
 		}
-		if _, ok := lenv.(symInt); ok {
-			panic(unsupported("make([]T, symbolic)"))
+		if sc, ok := capv.(symInt); ok {
+			capv = fr.concretizeAny(sc, "make-cap")
 		}
 		c, l := asInt64(capv), asInt64(lenv)
 		if l < 0 || c < l || c > 1<<28 {
@@ -503,6 +506,21 @@ func (fr *frame) concretizeRange(s symInt, lo, hi int, what string) int {
 		}
 	}
 	return hi + 1
+}
+
+// concretizeAny forks over the feasible values of s (at most 64 of them), returning the value on this path.
+func (fr *frame) concretizeAny(s symInt, what string) value {
+	for n := 0; n < 64; n++ {
+		val, ok := fr.i.p.modelValue(fr.i, s.t)
+		if !ok {
+			break
+		}
+		c := fr.i.tb.Const(val, s.t.W)
+		if fr.branch(fr.i.tb.Eq(s.t, c), what) {
+			return fr.i.mkInt(c, s.k)
+		}
+	}
+	panic(unsupported("symbolic value with more than 64 feasible values where a concrete one is needed: " + what))
 }
 
 // concretizeKey resolves a symbolic map key against the existing keys of m.
